@@ -47,6 +47,13 @@ func (e *Engine) frameEnv(st *State, fr *Frame) *cenv {
 		for j, p := range c.Params {
 			if i+j < len(fr.params) {
 				env.vars[p] = fr.params[i+j]
+				// inside the body (loop invariants, atcall hooks) a parameter name means the variable's CURRENT
+				// value - Go parameters are assignable; <name>0 is the entry value (pre/postconditions always see
+				// entry values)
+				env.vars[p+"0"] = fr.params[i+j]
+				if cur, ok := fr.names[p]; ok && !fr.nameAddr[p] {
+					env.vars[p] = cur
+				}
 			}
 		}
 		for _, ld := range c.Lets {
